@@ -111,7 +111,7 @@ class Scratch:
             return self.native_bin
         t0 = time.time()
         env = dict(ENV, RUSTFLAGS="--cfg verif_replay -A warnings")
-        p = subprocess.run(["cargo", "build", "--offline", "--example", "verif_replay", "--target-dir",
+        p = subprocess.run(["cargo", "build", "--offline", "--features", "serde", "--example", "verif_replay", "--target-dir",
                             os.path.join(self.dir, "nt")], cwd=self.crate, env=env,
                            stdout=subprocess.PIPE, stderr=subprocess.STDOUT, text=True)
         if p.returncode != 0:
@@ -304,9 +304,10 @@ def known_match(known, prop, obname, clauses):
 
 
 def write_replay(prop, ob, payload):
-    os.makedirs(os.path.join(VERIF, "replays"), exist_ok=True)
+    rd = os.environ.get("VERIF_REPLAY_DIR", os.path.join(VERIF, "replays"))
+    os.makedirs(rd, exist_ok=True)
     h = hashlib.sha256(json.dumps(payload, sort_keys=True).encode()).hexdigest()[:10]
-    path = os.path.join(VERIF, "replays", "%s-%s-%s.json" % (prop, ob["name"].replace("::", "."), h))
+    path = os.path.join(rd, "%s-%s-%s.json" % (prop, ob["name"].replace("::", "."), h))
     json.dump(payload, open(path, "w"), indent=1)
     return path
 
@@ -464,15 +465,23 @@ def handle_refuted(sc, prop, ob, row, failed, known, violations, known_hits, raw
         violations.append("VIOLATION property=%s replay=%s obligation=%s clause=%r no-failing-input-found" % (prop, path, ob["name"], clauses[0]))
 
 
+EVIDENCE_DIR = os.environ.get("VERIF_EVIDENCE_DIR", os.path.join(VERIF, "evidence"))
+REPLAY_DIR = os.environ.get("VERIF_REPLAY_DIR", os.path.join(VERIF, "replays"))
+
+
 def write_evidence(prop, tier, seed, rows, expected, wall, extra, note=None):
-    os.makedirs(os.path.join(VERIF, "evidence"), exist_ok=True)
+    os.makedirs(EVIDENCE_DIR, exist_ok=True)
     proof_rows = [r for r in rows if r["class"] not in ("bounded", "ground", "canary")]
     n_ob = len(proof_rows)
     n_dis = sum(1 for r in proof_rows if r["verdict"] == "discharged")
     bounded = [r for r in rows if r["class"] == "bounded"]
     ground = [r for r in rows if r["class"] == "ground"]
     funcs = sorted({f for r in rows for f in r.get("functions", [])})
-    meta = OB.PROPERTY_META.get(prop, {})
+    import claims as CL
+    meta = dict(OB.PROPERTY_META.get(prop, {}))
+    meta.update(CL.META.get(prop, {}))
+    if not meta.get("explanation"):
+        meta["explanation"] = CL.CLAIMS.get(prop, {}).get("text", "")
     assumptions = list(meta.get("assumptions", [])) + OB.COMMON_ASSUMPTIONS
     stubs_used = sorted({s for r in rows for s in r.get("stubs", [])})
     ev = {
@@ -502,7 +511,7 @@ def write_evidence(prop, tier, seed, rows, expected, wall, extra, note=None):
     if note:
         ev["coverage"]["note"] = note
     ev["coverage"].update(extra)
-    json.dump(ev, open(os.path.join(VERIF, "evidence", prop + ".json"), "w"), indent=1)
+    json.dump(ev, open(os.path.join(EVIDENCE_DIR, prop + ".json"), "w"), indent=1)
 
 
 def do_replay(prop, path):
